@@ -340,7 +340,7 @@ func gaussianPreconditions(c *core.Ctx, r *core.Report) {
 			if b, isB := bo.Type().Underlying().(*types.Basic); !isB || b.Info()&types.IsFloat == 0 {
 				return
 			}
-			if fld, owner := an.TerminalField(bo.Y); fld != nil && an.IsNamed(owner, core.ModPath+"/"+gpkg, "Calculator") {
+			if fld, owner := an.TerminalField(bo.Y); fld != nil && nestedIn(c, owner, core.ModPath+"/"+gpkg, "Calculator") {
 				divFields[fld.Name()] = true
 			}
 		})
@@ -377,10 +377,12 @@ func gaussianPreconditions(c *core.Ctx, r *core.Report) {
 		}
 		r.Check(positiveGuard(in, bo.Y), key+"#divisor>0@"+an.D().Of(bo.Y), an.Pos(c, in), "the divisor is tested > 0 before the division", "the scale is divided by "+an.D().Of(bo.Y)+" without a test that it is positive: a repeat window not longer than the tick interval (or a distribution lying outside the window) makes it zero or negative, and the rate becomes infinite or negative")
 	})
-	for f, vs := range an.LiteralFieldStores(lit) {
+	nDiv := 0
+	for f, vs := range literalLeafFieldStores(lit) {
 		if !divFields[f] {
 			continue
 		}
+		nDiv++
 		okPos := true
 		for _, v := range vs {
 			// where this value is stored (or, for the literal's own stores, where the calculator is returned)
@@ -474,6 +476,7 @@ func gaussianPreconditions(c *core.Ctx, r *core.Report) {
 		}
 		r.Check(okPos, key+"#"+f+">0", c.Pos(lit.Pos()), "field "+f+" (a divisor of the rate) is positive when the calculator is returned", "field "+f+", which the rate is divided by, is not shown positive: weights that sum to zero give a NaN rate, i.e. a negative request")
 	}
+	r.Floor("divisor fields of the calculator set in its constructor", nDiv, len(divFields))
 }
 
 // wrappingOrder: in every function that builds api.Rates, the rate handed to NewDistribution is the result of WithJitter
@@ -1241,4 +1244,27 @@ func returnOnlyWhenEmpty(ret *ssa.Return) (bool, string) {
 		return false, sprintf("returned under len(%s) %s %d", an.D().Of(call.Call.Args[0]), op, n)
 	}
 	return false, "not guarded by a test of the list's length"
+}
+
+// literalLeafFieldStores is LiteralFieldStores that also lists the fields of struct values nested in the literal.
+func literalLeafFieldStores(al ssa.Value) map[string][]ssa.Value {
+	out := map[string][]ssa.Value{}
+	var walk func(base ssa.Value, depth int)
+	walk = func(base ssa.Value, depth int) {
+		for _, ref := range an.Referrers(base) {
+			fa, ok := ref.(*ssa.FieldAddr)
+			if !ok || fa.X != base {
+				continue
+			}
+			name := an.FieldOfAddr(fa).Name()
+			for _, st := range an.StoresTo(fa) {
+				out[name] = append(out[name], st.Val)
+			}
+			if _, isStruct := an.FieldOfAddr(fa).Type().Underlying().(*types.Struct); isStruct && depth < 2 {
+				walk(fa, depth+1)
+			}
+		}
+	}
+	walk(al, 0)
+	return out
 }
